@@ -12,7 +12,7 @@ import mp_common as M
 TRUSTED_BASE_MPLOAD = [
     "coq/MpLoadModel.v: shapes of load targets, load_spec (what the generic layer makes of the scopes' answers), the request programs elem_prog / member_prog; hand-written from serialization_base_types.h / generic_container.h; tied to /repo by this correspondence (drv_mpload: LoadObject through the public API)",
     "std::map<K,V> targets (K = std::string or an integer type, MapLoadMode::Clean) are modelled for archive keys of K's class (string / integer) that convert to pairwise different K; documents whose maps meet a std::map target with a key of another class (text <-> number conversions, float / double / timestamp keys) or with equal keys are answered UNMODELLED by the model driver and only required not to crash (counted in the evidence as class 'unmodelled')",
-    "not modelled: MapLoadMode::OnlyExistKeys / UpdateKeys, std::tuple / std::pair (the tuple loader swallows OutOfRange under the Skip policy), validation; documents with keys of unsupported kinds or duplicate keys are outside the specification (the object scope throws on an unsupported key kind)",
+    "not modelled: MapLoadMode::OnlyExistKeys / UpdateKeys, validation; documents with keys of unsupported kinds or duplicate keys are outside the specification (the object scope throws on an unsupported key kind)",
     "glue: harness/drv_mpload.cpp (dynamic node tree; an element reset to value_type() is printed as the value-initialised element of the static element type), ml/mpload_driver.ml, props/C01mp.py (independent Python evaluation of the load)",
 ]
 
@@ -33,7 +33,7 @@ def drivers(vlib):
     return impl, saver, model
 
 
-# ---------------------------------------------------------------- shapes: ('n',) ('B',) ('i',kind) ('f',) ('d',) ('s',) ('b',) ('[',e) ('{',[(name,shape)]) ('<',kshape,vshape) ('(',n,e) ('v',)
+# ---------------------------------------------------------------- shapes: ('n',) ('B',) ('i',kind) ('f',) ('d',) ('s',) ('b',) ('[',e) ('{',[(name,shape)]) ('<',kshape,vshape) ('(',n,e) ('v',) ('^',[shape..])
 
 def rand_shape(rng, depth=0):
     k = rng.random()
@@ -59,6 +59,8 @@ def rand_shape(rng, depth=0):
         return ("(", rng.choice([0, 1, 2, 3, 5]), rand_shape(rng, depth + 1))
     if k < 0.78:
         return ("v",)
+    if k < 0.82:
+        return ("^", [rand_shape(rng, depth + 1) for _ in range(rng.choice([0, 1, 2, 2, 3, 4]))])
     if k < 0.88:
         ks = ("s",) if rng.random() < 0.5 else ("i", rng.choice(list(IKINDS)))
         return ("<", ks, rand_shape(rng, depth + 1))
@@ -95,6 +97,8 @@ def shape_text(s):
         return "(%d|%s)" % (s[1], shape_text(s[2]))
     if t == "v":
         return "v"
+    if t == "^":
+        return "^" + ";".join(shape_text(x) for x in s[1]) + "$"
     return "{" + ";".join("s%s=%s" % (M.hx(nm), shape_text(x)) for nm, x in s[1]) + "}"
 
 
@@ -150,6 +154,9 @@ def rand_value(rng, s, depth=0):
         return "[" + ";".join(a for a, _, _ in items) + "]", "[" + ";".join(b for _, b, _ in items) + "]", [v for _, _, v in items]
     if t == "(":
         items = [rand_value(rng, s[2], depth + 1) for _ in range(s[1])]
+        return "[" + ";".join(a for a, _, _ in items) + "]", "[" + ";".join(b for _, b, _ in items) + "]", [v for _, _, v in items]
+    if t == "^":
+        items = [rand_value(rng, x, depth + 1) for x in s[1]]
         return "[" + ";".join(a for a, _, _ in items) + "]", "[" + ";".join(b for _, b, _ in items) + "]", [v for _, _, v in items]
     if t == "v":
         items = [rng.random() < 0.5 for _ in range(rng.choice([0, 1, 2, 3, 9, 17]))]
@@ -207,6 +214,8 @@ def default_text(s):
         return "[" + ";".join(default_text(s[2]) for _ in range(s[1])) + "]"
     if t == "v":
         return "[]"
+    if t == "^":
+        return "[" + ";".join(default_text(x) for x in s[1]) + "]"
     return "{" + ";".join("s%s=%s" % (M.hx(nm), default_text(x)) for nm, x in s[1]) + "}"
 
 
@@ -222,8 +231,24 @@ def py_load(pol, s, v):
             raise Stop("O")
         return None
     t = s[0]
-    if t in "[{b<(v" and v is None:
+    if t in "[{b<(v^" and v is None:
         return None
+    if t == "^":
+        # SerializeArray(std::tuple): components while the array has elements; a shorter array leaves the rest as they are
+        if not isinstance(v, list):
+            return mism()
+        out = []
+        for i, x in enumerate(s[1]):
+            if i >= len(v):
+                if pol[0] == "T":
+                    raise Stop("M")
+                out += [default_text(y) for y in s[1][i:]]
+                break
+            r = py_load(pol, x, v[i])
+            out.append(default_text(x) if r is None else r)
+        if len(v) > len(s[1]) and pol[0] == "T":
+            raise Stop("M")
+        return "[" + ";".join(out) + "]"
     if t == "(":
         # SerializeFixedSizeArray: elements while both sides have one, then OutOfRange unless both are exhausted
         if not isinstance(v, list):
@@ -381,6 +406,14 @@ def perturb(rng, s, v, depth=0):
         elif r < 0.3 and out:
             out.pop()
         return out
+    if t == "^" and isinstance(v, list):
+        out = [perturb(rng, x, y, depth + 1) for x, y in zip(s[1], v)]
+        r = rng.random()
+        if r < 0.25 and out:
+            out = out[:rng.randrange(0, len(out))]
+        elif r < 0.4:
+            out.append(other_value(rng))
+        return out
     if t == "v" and isinstance(v, list):
         out = [other_value(rng) if rng.random() < 0.25 else x for x in v]
         if rng.random() < 0.2:
@@ -433,6 +466,7 @@ def gen_cases(rng, tier):
 
 def run_mpload(ctx, vlib):
     impl, saver, model = drivers(vlib)
+    known = [k for k in vlib.load_known("C01") if k.get("driver") == "mpload" and k.get("status") == "known"]
     rng = ctx["rng"]
     trees = gen_cases(rng, ctx["tier"])
     saved = vlib.run_driver(saver, ["sv %s %s" % (rng.choice("ms"), text) for _, text, _, _ in trees])
@@ -491,11 +525,19 @@ def run_mpload(ctx, vlib):
                 failing.append(rec)
             elif verdict != "FAIL" and len(diffs) < 20:
                 diffs.append(rec)
+    known_lines = []
+    outs = vlib.run_driver(impl, [k["case"] for k in known], jobs=1) if known else []
+    for k, out in zip(known, outs):
+        if out == k["implementation"]:
+            known_lines.append("%s: %s [case: %s -> %s]" % (k["id"], k["what"], k["case"], out))
+        elif len(diffs) < 20:
+            diffs.append(dict(driver="mpload", case=k["case"], implementation=out, model=k["implementation"], judge="KNOWN-FINDING-CHANGED",
+                              why="listed known finding %s no longer reproduces as recorded" % k["id"]))
     step = max(1, len(cases) // 3)
     samples = [dict(case=cases[i][:400], implementation=oi[i][:200], model=om[i][:200]) for i in range(0, len(cases), step)][:3]
     return dict(evaluations=len(cases), distinct_nontrivial=nontrivial, samples=samples, classes=classes, failing=failing, diffs=diffs,
-                known_lines=[], extra=dict(mpload_verdicts=verdicts),
-                rule="typed load of whole value trees through LoadObject<MsgPackArchive> (string and istream): random shapes (all integer kinds, bool, nullptr, float, double, string, byte container, nested vectors, classes with up to 6 string-named members, std::map<std::string, V> and std::map<integer type, V> for all eight integer types, std::array<V, N> with N in 0..5, std::vector<bool>, depth <= 4); documents = the implementation's own SaveObject output of a random value of the shape, the independent Python encoder's output with random format widths, and perturbed documents (members permuted / dropped / added, map entries permuted and added with keys in and out of the key type's range and occasionally of another class, values of other kinds, extra elements) under the four policy combinations; compared with the extracted specification load_bytes and with an independent Python evaluation; saved documents must load back to the saved tree",
+                known_lines=known_lines, extra=dict(mpload_verdicts=verdicts),
+                rule="typed load of whole value trees through LoadObject<MsgPackArchive> (string and istream): random shapes (all integer kinds, bool, nullptr, float, double, string, byte container, nested vectors, classes with up to 6 string-named members, std::map<std::string, V> and std::map<integer type, V> for all eight integer types, std::array<V, N> with N in 0..5, std::vector<bool>, std::tuple of 0..4 components, depth <= 4); documents = the implementation's own SaveObject output of a random value of the shape, the independent Python encoder's output with random format widths, and perturbed documents (members permuted / dropped / added, map entries permuted and added with keys in and out of the key type's range and occasionally of another class, values of other kinds, extra elements) under the four policy combinations; compared with the extracted specification load_bytes and with an independent Python evaluation; saved documents must load back to the saved tree",
                 broken="correspondence MsgPack typed load specification vs LoadObject<MsgPackArchive> (drv_mpload)")
 
 
